@@ -91,6 +91,20 @@ CHECKS["C04"] = dict(
     technique="TLA+ spec (CollocProps) evaluated/model-checked with TLC; TLC-generated cases replayed into "
               "Collocator.collocate; recorded call histories validated by TLC (CollocTrace)")
 
+CHECKS["C13"] = dict(
+    text="CompactProps.tla defines CompactInv, Expand, the collapse statistics per reference point (count, sum, sum of "
+         "squares, max over non-NaN partners; either group as reference) and Concat with index shifts; TLC model-checks "
+         "Expand(Concat(a,b)) = Expand(a) ++ Expand(b) and invariant preservation and enumerates all compact datasets of the "
+         "bound, which are replayed on expand / collapse (default, named reference, custom collapser) / "
+         "concat_collocations (lists of 1-3, inputs reused afterwards), every 9th tiled beyond 1000 pairs; genuine "
+         "collocate() results are checked against CompactInv and pair-consistent expansion.",
+    ref="DESIGN.md §5 C13",
+    note="Trusted: TLC, CompactProps, the hand-built xarray layout (copied from collocate output). mean/std are compared "
+         "through the exact integer identities mean*n = sum and std^2*n^2 = n*sumsq - sum^2 (1e-9/1e-7). numba is not "
+         "installed, so the >1000-pair path runs the same Python row assignment.",
+    technique="TLA+ spec (CompactProps) model-checked with TLC; TLC-generated cases replayed into "
+              "typhon.collocations.expand/collapse/concat_collocations")
+
 NOT_APPLICABLE = {
     "C07": "Every clause concerns floating-point accuracy of sin/cos/arctan2/sqrt compositions or convergence of a "
            "fixed-point iteration over a continuous domain; TLA+/TLC has no reals or transcendental functions and there "
